@@ -230,6 +230,50 @@ impl Ctx {
 }
 
 // ------------------------------------------------------------------------------------------------
+// current step (which entry point is running): printed by the panic hook and by the fatal-signal
+// handler so that a crash can be attributed
+
+static mut STEP_BUF: [u8; 160] = [0; 160];
+static STEP_LEN: std::sync::atomic::AtomicUsize = std::sync::atomic::AtomicUsize::new(0);
+
+/// Record the name of the step that is about to run (worker processes are single-threaded).
+#[inline]
+pub fn set_step(name: &str) {
+    let n = name.len().min(160);
+    unsafe {
+        std::ptr::copy_nonoverlapping(name.as_ptr(), std::ptr::addr_of_mut!(STEP_BUF) as *mut u8, n);
+    }
+    STEP_LEN.store(n, std::sync::atomic::Ordering::Relaxed);
+}
+
+fn current_step() -> String {
+    let n = STEP_LEN.load(std::sync::atomic::Ordering::Relaxed);
+    let b = unsafe { std::slice::from_raw_parts(std::ptr::addr_of!(STEP_BUF) as *const u8, n) };
+    String::from_utf8_lossy(b).to_string()
+}
+
+extern "C" fn fatal_signal_handler(sig: libc::c_int) {
+    // async-signal-safe: write(2) only, then fall back to the default action
+    unsafe {
+        let pre = b"\nEPVERIF-SIGNAL step=";
+        libc::write(2, pre.as_ptr() as *const libc::c_void, pre.len());
+        let n = STEP_LEN.load(std::sync::atomic::Ordering::Relaxed);
+        libc::write(2, std::ptr::addr_of!(STEP_BUF) as *const libc::c_void, n);
+        libc::write(2, b"\n".as_ptr() as *const libc::c_void, 1);
+        libc::signal(sig, libc::SIG_DFL);
+        libc::raise(sig);
+    }
+}
+
+pub fn install_signal_handlers() {
+    unsafe {
+        for s in [libc::SIGSEGV, libc::SIGBUS, libc::SIGILL, libc::SIGFPE] {
+            libc::signal(s, fatal_signal_handler as usize);
+        }
+    }
+}
+
+// ------------------------------------------------------------------------------------------------
 // panic capture
 
 thread_local! {
@@ -237,6 +281,7 @@ thread_local! {
 }
 
 pub fn install_panic_hook() {
+    install_signal_handlers();
     std::panic::set_hook(Box::new(|info| {
         let loc = info
             .location()
@@ -254,7 +299,7 @@ pub fn install_panic_hook() {
         // (bounded: tolerated known findings may panic many times)
         static PRINTED: std::sync::atomic::AtomicU32 = std::sync::atomic::AtomicU32::new(0);
         if PRINTED.fetch_add(1, std::sync::atomic::Ordering::Relaxed) < 40 {
-            eprintln!("EPVERIF-PANIC panicked at: {}", full);
+            eprintln!("EPVERIF-PANIC step={} panicked at: {}", current_step(), full);
         }
         LAST_PANIC.with(|p| *p.borrow_mut() = Some(full));
     }));
@@ -710,7 +755,7 @@ fn shrink_crash_tape(profile: &str, prop: &str, tier: Tier, tape: &[u8]) -> Vec<
 
 fn abort_message(stderr: &str) -> String {
     for l in stderr.lines().rev() {
-        if l.contains("EPVERIF-PANIC") || l.contains("unsafe precondition") || l.contains("panicked at") || l.contains("AddressSanitizer") {
+        if l.contains("EPVERIF-PANIC") || l.contains("EPVERIF-SIGNAL") || l.contains("unsafe precondition") || l.contains("panicked at") || l.contains("AddressSanitizer") {
             return l.trim().chars().take(300).collect();
         }
     }
@@ -1051,12 +1096,12 @@ pub fn driver_main(prop: &dyn Property, tier: Tier, root: &Path) -> i32 {
 
 fn crash_class(sig: i32, msg: &str) -> String {
     // keep the part of the message that names the violated precondition / location, drop addresses
-    let mut m: String = msg.chars().filter(|c| !c.is_ascii_digit() || true).collect();
-    if let Some(i) = m.find("etherparse/src/") {
-        m = m[i..].to_string();
-    }
-    let m: String = m.chars().take(120).collect();
-    format!("signal{}|{}", sig, m)
+    // "EPVERIF-PANIC step=<entry> panicked at: <msg> @ <loc>"  /  "EPVERIF-SIGNAL step=<entry>"
+    let step = msg.split("step=").nth(1).map(|s| s.split(" panicked at").next().unwrap_or(s).trim().to_string()).unwrap_or_default();
+    let step = step.split('(').next().unwrap_or("").to_string();
+    let what = if let Some(i) = msg.find("panicked at: ") { msg[i + 13..].to_string() } else { String::new() };
+    let what: String = what.split(" @ ").next().unwrap_or("").chars().take(100).collect();
+    format!("{}|signal{}|{}", step, sig, what)
 }
 
 /// `--replay <file>` from the command line: exit 0 pass / known finding, 1 violation.
